@@ -1,30 +1,79 @@
-"""C14 (proved part) - loading a saved PV event: which key feeds which field.
+"""C14 (proved part) - the file boundary between otel2pv and pv2puml: saving a PV event stream under a field-name mapping and
+loading it back under the same mapping.
 
-Function under contract (real source re-read on every run): tel2puml/pv_event_simulator.py transform_dict_into_pv_event
+Functions under contract (real source re-read on every run):
+  tel2puml/otel_to_pv/otel_to_pv.py      save_pv_event_stream_to_file      (the key renaming + json.dump)
+  tel2puml/pv_event_simulator.py         transform_dict_into_pv_event      (the inverse renaming + validation)
+  tel2puml/pv_to_puml/pv_to_puml.py      pv_job_file_to_event_sequence     (json.load + the loader on every entry)
+Lemmas over these contracts: loading what was saved (same mapping, pairwise distinct field names) gives the events back.
 
-The saving side (a nested comprehension with getattr inside `with open(...)`/json.dump) and the composition of the two
-routes are checked by the bounded round-trip harness through the real entry point; nothing of them is counted as proved.
+A PVEvent is modelled as what it is at run time - a dict[str, Any].  Files are modelled by the ghost map fs.files
+(pyvc/fsmodel.py; trusted: json.dump / json.load are inverse on these values).  The composition of the two *routes* and the
+diagrams are checked by the bounded round-trip harness through the real entry point; nothing of them is counted as proved.
 """
 MODULE = "tel2puml/pv_event_simulator.py"
+FILES = {"": "tel2puml/pv_event_simulator.py", "save_pv_event_stream_to_file": "tel2puml/otel_to_pv/otel_to_pv.py",
+         "handle_save_events": "tel2puml/otel_to_pv/otel_to_pv.py",
+         "pv_job_file_to_event_sequence": "tel2puml/pv_to_puml/pv_to_puml.py"}
+USES_FS = True
+# the saved file's path determines the file number (the template ends in "_{count}.json" and a decimal number contains no "_")
+FSTRING_INJECTIVE = {"{}/{}/pv_event_sequence_{}.json": [2]}
 _F = ["jobId", "eventId", "timestamp", "previousEventIds", "applicationName", "jobName", "eventType"]   # declaration order of PVEventMappingConfig
 _MANDATORY = [f for f in _F if f != "previousEventIds"]
 
 RECORDS = {
     "PVEventMappingConfig": {"fields": {f: "str" for f in _F}},
     "PVEventModel": {"fields": {**{f: "str" for f in _MANDATORY}, "previousEventIds": "list[str]"}},
-    "PVEvent": {"struct": True, "fields": {"eventId": "str", "eventType": "str", "jobId": "str", "timestamp": "str", "applicationName": "str",
-                                           "jobName": "str", "previousEventIds": "list[str]"}},
+    "FS": {"fields": {"files": "dict[str, list[dict[str, Any]]]"}, "mutable": ["files"]},
 }
 
+
+def _name(f):          # the key a field is saved under: its own name without a mapping, the mapped name otherwise
+    return f"('{f}' if mapping_config is None else mapping_config.{f})"
+
+
+_PATH = 'f"{output_file_directory}/{job_name}/pv_event_sequence_{count}.json"'
+_PATHN = _PATH.replace("{count}", "{n}")
+
+
+def _frame(pre, untouched):
+    """every path p satisfying `untouched` is stored exactly when it was before, with the same content"""
+    return (f"forall(lambda p: implies({untouched}, (p in fs.files) == (p in {pre}(fs.files)) and "
+            f"implies(p in fs.files, fs.files[p] == {pre}(fs.files)[p])), 'str', triggers=[p in fs.files, p in {pre}(fs.files)])")
+
 SPECS = '''
-@opaque
 def valid_pv_values(pv_dict: dict[str, Any], mapping_config: PVEventMappingConfig) -> bool:
-    return True
+    return (''' + " and ".join(f"implies(mapping_config.{f} in pv_dict, is_str(pv_dict[mapping_config.{f}]))" for f in _MANDATORY) + '''
+            and implies(mapping_config.previousEventIds in pv_dict, is_id_list(pv_dict[mapping_config.previousEventIds])
+                        or (is_str(pv_dict[mapping_config.previousEventIds]) and pv_dict[mapping_config.previousEventIds] != "")))
+
+def distinct_names(c: PVEventMappingConfig) -> bool:
+    return ''' + " and ".join(f"c.{a} != c.{b}" for i, a in enumerate(_F) for b in _F[i + 1:]) + '''
+
+def pv_event(e: dict[str, Any]) -> bool:
+    return (all(''' + " or ".join(f"k == '{f}'" for f in _F) + ''' for k in e) and ''' + " and ".join(f"'{f}' in e and is_str(e['{f}'])" for f in _MANDATORY) + '''
+            and 'previousEventIds' in e and is_id_list(e['previousEventIds']))
+
+def default_names(c: PVEventMappingConfig) -> bool:
+    return ''' + " and ".join(f"c.{f} == '{f}'" for f in _F) + '''
+
+def saved_file(ds: list[dict[str, Any]], es: list[dict[str, Any]], c: PVEventMappingConfig | None) -> bool:
+    return len(ds) == len(es) and all(saved_as_opt(ds[i], es[i], c) for i in range(len(es)))
+
+def saved_as_opt(d: dict[str, Any], e: dict[str, Any], c: PVEventMappingConfig | None) -> bool:
+    return ((c is None and ''' + " and ".join(f"'{f}' in d and d['{f}'] == e['{f}']" for f in _F) + '''
+             and all(''' + " or ".join(f"k == '{f}'" for f in _F) + ''' for k in d))
+            or (c is not None and saved_as(d, e, c)))
+
+def saved_as(d: dict[str, Any], e: dict[str, Any], c: PVEventMappingConfig) -> bool:
+    return (''' + " and ".join(f"c.{f} in d and d[c.{f}] == e['{f}']" for f in _F) + '''
+            and all(''' + " or ".join(f"k == c.{f}" for f in _F) + ''' for k in d))
 '''
 
 CONTRACTS = {
     "transform_dict_into_pv_event": {
         "params": {"pv_dict": "dict[str, Any]"},
+        "pure": True,
         # the values are of the PV format's types (strings; previousEventIds a list of strings or one non-empty string): pydantic
         # rejects anything else with a ValidationError, which is outside this contract
         "requires": {"pv_typed": "valid_pv_values(pv_dict, mapping_config)"},
@@ -32,24 +81,124 @@ CONTRACTS = {
         "raises": {"ValueError": "not (" + " and ".join(f"mapping_config.{f} in pv_dict" for f in _MANDATORY) + ")"},
         "ensures": {
             # every field is read under the key the mapping gives it
-            "fields": " and ".join(f"result['{f}'] == as_str(pv_dict[mapping_config.{f}])" for f in _MANDATORY),
-            "links": "result['previousEventIds'] == as_id_list(pv_dict.get(mapping_config.previousEventIds, []))",
+            "fields": " and ".join(f"result['{f}'] == pv_dict[mapping_config.{f}]" for f in _MANDATORY),
+            "links": "as_id_list(result['previousEventIds']) == as_id_list(pv_dict.get(mapping_config.previousEventIds, [])) "
+                     "and is_id_list(result['previousEventIds'])",
+            "keys": "all(" + " or ".join(f"k == '{f}'" for f in _F) + " for k in result) and " + " and ".join(f"'{f}' in result" for f in _F),
         },
     },
+    "save_pv_event_stream_to_file": {
+        "params": {"pv_event_stream": "list[dict[str, Any]]"},
+        "modifies": ["FS.files"],
+        "requires": {
+            # the stream holds PV events (the seven keys): getattr(mapping_config, key) is defined for these keys only
+            "events": "all(" + " and ".join(f"'{f}' in e" for f in _F) + " and all(" + " or ".join(f"k == '{f}'" for f in _F) + " for k in e) for e in pv_event_stream)",
+            "distinct": "implies(mapping_config is not None, distinct_names(mapping_config))",
+        },
+        "raises": {"OSError": f"not writable({_PATH})"},
+        "ensures": {
+            "one_entry_per_event": f"{_PATH} in fs.files and len(fs.files[{_PATH}]) == len(pv_event_stream)",
+            # every field value is stored under the field's (re)name ...
+            "values": f"all(" + " and ".join(f"{_name(f)} in fs.files[{_PATH}][i] and fs.files[{_PATH}][i][{_name(f)}] == pv_event_stream[i]['{f}']"
+                                             for f in _F) + " for i in range(len(pv_event_stream)))",
+            # ... and nothing else is
+            "no_other_keys": f"all(all(" + " or ".join(f"k == {_name(f)}" for f in _F) + f" for k in fs.files[{_PATH}][i]) for i in range(len(pv_event_stream)))",
+            # the same, as one spec predicate (what callers and the lemmas use)
+            "saved_file": f"saved_file(fs.files[{_PATH}], pv_event_stream, mapping_config)",
+            # frame: every other file is as it was
+            "other_paths": _frame("old", f"p != {_PATH}"),
+            "other_files": f"all(p in fs.files and fs.files[p] == old(fs.files)[p] for p in old(fs.files) if p != {_PATH}) and "
+                           f"all(p in old(fs.files) or p == {_PATH} for p in fs.files)",
+        },
+    },
+    "handle_save_events": {
+        "params": {"pv_event_streams": "list[list[dict[str, Any]]]"},
+        "modifies": ["FS.files"],
+        "requires": {
+            "events": "all(all(" + " and ".join(f"'{f}' in e" for f in _F) + " and all(" + " or ".join(f"k == '{f}'" for f in _F) + " for k in e) for e in s) for s in pv_event_streams)",
+            "distinct": "implies(mapping_config is not None, distinct_names(mapping_config))",
+        },
+        "raises": {"OSError": 'not creatable(f"{output_file_directory}/{job_name}") or any(not writable(' + _PATHN + ") for n in range(1, len(pv_event_streams) + 1))"},
+        "loops": {0: {"index": "i", "seq": "ss", "invariant": {
+            "src": "ss == pv_event_streams",
+            "file_no": "file_no == i + 1",
+            "written": f"all({_PATHN} in fs.files and saved_file(fs.files[{_PATHN}], ss[n - 1], mapping_config) for n in range(1, i + 1))",
+            "writable": f"all(writable({_PATHN}) for n in range(1, i + 1))",
+            "others": _frame("pre_loop", f"all(p != {_PATHN} for n in range(1, i + 1))"),
+        }}},
+        "ensures": {
+            # the n-th trace of the workflow is saved, whole, as file number n of the workflow's folder
+            "one_file_per_trace": f"all({_PATHN} in fs.files and saved_file(fs.files[{_PATHN}], pv_event_streams[n - 1], mapping_config) "
+                                  "for n in range(1, len(pv_event_streams) + 1))",
+            "other_files": _frame("old", f"all(p != {_PATHN} for n in range(1, len(pv_event_streams) + 1))"),
+        },
+    },
+    "pv_job_file_to_event_sequence": {
+        "requires": {"typed": "implies(file_path in fs.files, all(valid_pv_values(d, mapping_config) for d in fs.files[file_path]))"},
+        "raises": {"FileNotFoundError": "file_path not in fs.files",
+                   "ValueError": "file_path in fs.files and any(not (" + " and ".join(f"mapping_config.{f} in d" for f in _MANDATORY) + ") for d in fs.files[file_path])"},
+        "loops": {0: {"index": "i", "seq": "ds", "invariant": {
+            "prefix": "out_data == [transform_dict_into_pv_event(d, mapping_config) for d in ds[:i]]",
+            "ok": "all(" + " and ".join(f"mapping_config.{f} in d" for f in _MANDATORY) + " for d in ds[:i])",
+            "src": "ds == fs.files[file_path]"}}},
+        "ensures": {"loads_every_entry": "result == [transform_dict_into_pv_event(d, mapping_config) for d in fs.files[file_path]]"},
+    },
 }
-ORDER = ["transform_dict_into_pv_event"]
+ORDER = [
+    "transform_dict_into_pv_event",
+    "save_pv_event_stream_to_file",
+    "handle_save_events",
+    "pv_job_file_to_event_sequence",
+    # loading a dict that was saved from a PV event under a mapping with distinct names gives the event back
+    {"name": "load_inverts_save_event",
+     "forall": {"e": "dict[str, Any]", "d": "dict[str, Any]", "c": "PVEventMappingConfig"},
+     "requires": ["pv_event(e)", "distinct_names(c)", "saved_as(d, e, c)"],
+     "ensures": "valid_pv_values(d, c) and maps_agree(transform_dict_into_pv_event(d, c), e)"},
+    # ... and so loading a saved file (the mapping used for saving, or the default names when none was used) gives the stream back
+    {"name": "load_inverts_save_file",
+     "forall": {"es": "list[dict[str, Any]]", "ds": "list[dict[str, Any]]", "c": "PVEventMappingConfig | None", "c2": "PVEventMappingConfig"},
+     "requires": ["all(pv_event(e) for e in es)", "saved_file(ds, es, c)",
+                  "implies(c is None, default_names(c2))", "implies(c is not None, c2 == c and distinct_names(c2))"],
+     "ensures": "len([transform_dict_into_pv_event(d, c2) for d in ds]) == len(es) and all(valid_pv_values(ds[i], c2) and "
+                "maps_agree([transform_dict_into_pv_event(d, c2) for d in ds][i], es[i]) for i in range(len(es)))"},
+]
 
 
 def setup(V):
     import ast
     import z3
     from pyvc.engine import V as Val, Unsupported
-    from pyvc.tys import STR, ANY, SeqTy, MapTy
+    from pyvc.tys import STR, ANY, BOOL, SeqTy, MapTy
 
     cfg = V.tenv.records["PVEventMappingConfig"]
     model = V.tenv.records["PVEventModel"]
     lst = SeqTy(STR)
     as_list = V.pre.func("as_id_list", V.pre.AnyS, V.sort(lst))
+
+    V.tenv.aliases["PVEvent"] = MapTy(STR, ANY)      # a TypedDict is a dict at run time
+    V.sort(MapTy(STR, ANY))
+    box_s, unbox_s = V.pre.func("box_str", V.pre.Str, V.pre.AnyS), V.pre.func("unbox_str", V.pre.AnyS, V.pre.Str)
+    box_l, unbox_l = V.pre.func(f"box_{lst.name}", V.sort(lst), V.pre.AnyS), V.pre.func(f"unbox_{lst.name}", V.pre.AnyS, V.sort(lst))
+    a = z3.Const("a", V.pre.AnyS)
+    xs_, xl_ = z3.Const("xs", V.pre.Str), z3.Const("xl", V.sort(lst))
+    V.pre.ax("box.str.inj", z3.ForAll([xs_], unbox_s(box_s(xs_)) == xs_, patterns=[box_s(xs_)]))
+    V.pre.ax(f"box.{lst.name}.inj", z3.ForAll([xl_], unbox_l(box_l(xl_)) == xl_, patterns=[box_l(xl_)]))
+    V.pre._done.update({"box.str", f"box.{lst.name}"})
+    # the pydantic validator of previousEventIds (trusted, cross-checked by the runtime contracts): a list of strings is kept,
+    # a non-empty string becomes the one-element list
+    V.pre.ax("as_id_list.list", z3.ForAll([a], z3.Implies(box_l(unbox_l(a)) == a, as_list(a) == unbox_l(a)), patterns=[as_list(a)]))
+    V.pre.ax("as_id_list.str", z3.ForAll([a], z3.Implies(z3.And(box_s(unbox_s(a)) == a, unbox_s(a) != V.strlit("").t),
+                                                       as_list(a) == V.pre.seqf(lst, "unit")(unbox_s(a))), patterns=[as_list(a)]))
+
+    def b_is_str(self, n, st):
+        v = self.coerce(self.expr(n.args[0], st), ANY)
+        return Val(box_s(unbox_s(v.t)) == v.t, BOOL)
+    V.builtins["is_str"] = b_is_str
+
+    def b_is_id_list(self, n, st):
+        v = self.coerce(self.expr(n.args[0], st), ANY)
+        return Val(box_l(unbox_l(v.t)) == v.t, BOOL)
+    V.builtins["is_id_list"] = b_is_id_list
 
     def b_as_str(self, n, st):
         return self.coerce(self.expr(n.args[0], st), STR)
@@ -97,7 +246,38 @@ def setup(V):
 
 
 # ----------------------------------------------------------------------------- native reading
+class _FSView:
+    """fs.files natively: every JSON file under the scratch root, keyed by its path"""
+    def __init__(self, root):
+        self.root = root
+
+    @property
+    def files(self):
+        import json
+        import os
+        out = {}
+        for dp, _, fns in os.walk(self.root):
+            for fn in fns:
+                path = f"{dp}/{fn}"
+                try:
+                    out[path] = json.load(open(path))
+                except Exception:  # noqa: BLE001
+                    out[path] = None
+        return out
+
+    def __deepcopy__(self, memo):
+        snap = _FSSnap()
+        snap.files = self.files
+        return snap
+
+
+class _FSSnap:
+    files = None
+
+
 def native_env(nat):
+    import os
+
     def as_str(x):
         return x
 
@@ -105,22 +285,29 @@ def native_env(nat):
         if x and isinstance(x, str):
             return [x]
         return list(x)
-    def valid_pv_values(pv_dict, cfg):
-        for f in _MANDATORY:
-            k = getattr(cfg, f)
-            if k in pv_dict and not isinstance(pv_dict[k], str):
-                return False
-        p = pv_dict.get(cfg.previousEventIds, [])
-        return (isinstance(p, str) and p != "") or (isinstance(p, list) and all(isinstance(x, str) for x in p))
-    return {"as_str": as_str, "as_id_list": as_id_list, "valid_pv_values": valid_pv_values}
+
+    def is_str(x):
+        return isinstance(x, str)
+
+    def is_id_list(x):
+        return isinstance(x, list) and all(isinstance(v, str) for v in x)
+
+    def writable(path):
+        return os.path.isdir(os.path.dirname(path))
+
+    def creatable(path):
+        parts = path.split("/")
+        return not any(os.path.isfile("/".join(parts[:k])) for k in range(2, len(parts) + 1))
+    return {"as_str": as_str, "as_id_list": as_id_list, "is_str": is_str, "is_id_list": is_id_list, "writable": writable, "creatable": creatable}
+
+
+def native_call_args(nat, fname, args):
+    return {k: v for k, v in args.items() if k != "fs"}
 
 
 def _cfgs(nat):
-    import importlib
-    t = importlib.import_module("tel2puml.tel2puml_types")
-    std = _F
     yield {}                                                                      # default names
-    yield {f: "x_" + f for f in std}                                              # all fresh names
+    yield {f: "x_" + f for f in _F}                                               # all fresh names
     yield {"jobName": "eventType", "eventType": "eventName"}                      # chained: a custom name is another field's standard name
     yield {"jobId": "eventId", "eventId": "jobId"}                                # swapped
     yield {"timestamp": "applicationName", "applicationName": "timestamp", "previousEventIds": "prev"}
@@ -130,38 +317,124 @@ class _Case(dict):
     pass
 
 
+_ROOTS = []
+
+
+def _scratch():
+    import atexit
+    import os
+    import shutil
+    import tempfile
+    root = tempfile.mkdtemp(prefix="vc14_", dir="/dev/shm" if os.path.isdir("/dev/shm") else None)
+    _ROOTS.append(root)
+    if len(_ROOTS) == 1:
+        atexit.register(lambda: [shutil.rmtree(r, ignore_errors=True) for r in _ROOTS])
+    return root
+
+
 def _mat(nat, d):
     import importlib
+    import json
+    import os
     t = importlib.import_module("tel2puml.tel2puml_types")
     out = _Case()
     out.desc = d
-    out["mapping_config"] = t.PVEventMappingConfig(**d["cfg"])
-    out["pv_dict"] = dict(d["pv_dict"])
+    cfg = None if d.get("cfg") is None else t.PVEventMappingConfig(**d["cfg"])
+    if d["fn"] == "transform_dict_into_pv_event":
+        out["mapping_config"] = cfg
+        out["pv_dict"] = dict(d["pv_dict"])
+        return out
+    root = _scratch()
+    for rel, content in d.get("files", {}).items():
+        os.makedirs(os.path.dirname(f"{root}/{rel}"), exist_ok=True)
+        json.dump(content, open(f"{root}/{rel}", "w"))
+    out["fs"] = _FSView(root)
+    if d["fn"] == "save_pv_event_stream_to_file":
+        if d.get("mkdir", True):
+            os.makedirs(f"{root}/out/{d['job_name']}", exist_ok=True)
+        out.update({"job_name": d["job_name"], "pv_event_stream": [dict(e) for e in d["stream"]], "output_file_directory": f"{root}/out",
+                    "count": d["count"], "mapping_config": cfg})
+    elif d["fn"] == "handle_save_events":
+        out.update({"job_name": d["job_name"], "pv_event_streams": [[dict(e) for e in st] for st in d["streams"]],
+                    "output_file_directory": f"{root}/{d.get('outdir', 'out')}", "mapping_config": cfg})
+    else:
+        out.update({"file_path": f"{root}/{d['file']}", "mapping_config": cfg})
     return out
 
 
-def _gen(nat, rng, n):
+_VALS = ["a", "b b", " c", "d ", "", "läuft", "eventType", "jobName"]
+
+
+def _event(rng):
+    e = {f: f"{f}:{rng.choice(_VALS)}" for f in _MANDATORY}
+    e["previousEventIds"] = [rng.choice(_VALS) for _ in range(rng.randrange(0, 3))]
+    keys = list(e)
+    rng.shuffle(keys)
+    return {k: e[k] for k in keys}
+
+
+def _gen_load(nat, rng, n):
     import importlib
     t = importlib.import_module("tel2puml.tel2puml_types")
     cfgs = list(_cfgs(nat))
-    vals = ["a", "b b", " c", "d ", "", "läuft", "eventType", "jobName"]
     for i in range(n):
         cfgd = cfgs[i % len(cfgs)]
         cfg = t.PVEventMappingConfig(**cfgd)
-        d = {getattr(cfg, f): f"{f}:{rng.choice(vals)}" for f in _MANDATORY}
+        d = {getattr(cfg, f): f"{f}:{rng.choice(_VALS)}" for f in _MANDATORY}
         r = rng.random()
         if r < 0.4:
-            d[cfg.previousEventIds] = [rng.choice(vals) for _ in range(rng.randrange(0, 3))]
+            d[cfg.previousEventIds] = [rng.choice(_VALS) for _ in range(rng.randrange(0, 3))]
         elif r < 0.6:
-            d[cfg.previousEventIds] = rng.choice(["p1", ""])
+            d[cfg.previousEventIds] = rng.choice(["p1", "q"])
         if rng.random() < 0.15:
             d.pop(getattr(cfg, rng.choice(_MANDATORY)))
         if rng.random() < 0.3:
             d["unrelated"] = "zzz"
-        yield _mat(nat, {"cfg": cfgd, "pv_dict": d})
+        yield _mat(nat, {"fn": "transform_dict_into_pv_event", "cfg": cfgd, "pv_dict": d})
 
 
-GEN = {"transform_dict_into_pv_event": _gen}
+def _gen_save(nat, rng, n):
+    cfgs = [None] + list(_cfgs(nat))
+    for i in range(n):
+        cfgd = cfgs[i % len(cfgs)]
+        stream = [_event(rng) for _ in range(rng.randrange(0, 4))]
+        yield _mat(nat, {"fn": "save_pv_event_stream_to_file", "cfg": cfgd, "stream": stream, "job_name": rng.choice(["wf", "wf one"]),
+                         "count": rng.randrange(1, 4), "mkdir": rng.random() > 0.1,
+                         "files": {"out/wf/pv_event_sequence_1.json": [{"old": "x"}], "out/other/keep.json": [{"k": "v"}]}})
+
+
+def _gen_handle(nat, rng, n):
+    cfgs = [None] + list(_cfgs(nat))
+    for i in range(n):
+        streams = [[_event(rng) for _ in range(rng.randrange(0, 3))] for _ in range(rng.randrange(0, 4))]
+        yield _mat(nat, {"fn": "handle_save_events", "cfg": cfgs[i % len(cfgs)], "streams": streams, "job_name": rng.choice(["wf", "wf one"]),
+                         "outdir": "out" if rng.random() > 0.1 else "blocked/x",      # "blocked" is a regular file: the folder cannot be created
+                         "files": {"out/wf/pv_event_sequence_2.json": [{"old": "x"}], "out/wf/pv_event_sequence_9.json": [{"k": "9"}],
+                                   "out/other/keep.json": [{"k": "v"}], "blocked": []}})
+
+
+def _gen_file(nat, rng, n):
+    import importlib
+    t = importlib.import_module("tel2puml.tel2puml_types")
+    cfgs = list(_cfgs(nat))
+    for i in range(n):
+        cfgd = cfgs[i % len(cfgs)]
+        cfg = t.PVEventMappingConfig(**cfgd)
+        content = []
+        for _ in range(rng.randrange(0, 4)):
+            e = _event(rng)
+            d = {getattr(cfg, k): v for k, v in e.items()}
+            if rng.random() < 0.1:
+                d.pop(getattr(cfg, rng.choice(_MANDATORY)))
+            if rng.random() < 0.2:
+                d.pop(cfg.previousEventIds, None)
+            content.append(d)
+        yield _mat(nat, {"fn": "pv_job_file_to_event_sequence", "cfg": cfgd, "files": {"in/job.json": content},
+                         "file": "in/job.json" if rng.random() > 0.1 else "in/missing.json"})
+
+
+GEN = {"transform_dict_into_pv_event": _gen_load, "save_pv_event_stream_to_file": _gen_save, "handle_save_events": _gen_handle,
+       "pv_job_file_to_event_sequence": _gen_file}
 
 
 class _Enc(dict):
